@@ -58,6 +58,7 @@ def setup (c : Case) : Except Verdict Setup :=
     let tag := s!"v{vers},{kindS},{cclass}"
     if gv ≠ vers ∨ gs ≠ suite then .error (.diff tag s!"negotiated vers={vers} suite={suite}")
     else if o.getD "sym" "?" ≠ "1" then .error (.diff tag "the four half-connections disagree on cipher kind or sizes")
+    else if o.nat "mur" ≠ some maxUselessRecords then .error (.diff tag s!"maxUselessRecords={maxUselessRecords}")
     else
       match suiteTable vers suite with
       | none => .error (.bad s!"suite {suite} not in the model's table")
@@ -212,6 +213,16 @@ def schedMonitor (vers : Nat) (toks : List String) (o : KV) : Option String :=
         else none
       | _, _ => some "unparsable-end"
 
+/-- the longest run of consecutive KeyUpdate operations issued by one side. -/
+def longestKURun (ops : List String) : Nat :=
+  let step := fun (st : String × Nat × Nat) (op : String) =>
+    let hd := (op.splitOn ":").headD ""
+    if hd.startsWith "k" then
+      let n := if hd = st.1 then st.2.1 + 1 else 1
+      (hd, n, max st.2.2 n)
+    else ("", 0, st.2.2)
+  (ops.foldl step ("", 0, 0)).2.2
+
 def sched (c : Case) : Verdict :=
   let o := c.output
   if o.getD "out" "?" ≠ "ok" then .diff "harness" s!"out=ok (got {o.getD "out" "?"} {o.getD "msg" ""})" else
@@ -223,7 +234,8 @@ def sched (c : Case) : Verdict :=
     let implDrain := listOf (o.getD "drain" "-")
     let ops := listOf (c.input.getD "ops" "-")
     let hasKU := ops.any (·.startsWith "k")
-    let tag := st.tag ++ (if hasKU then ",ku" else "")
+    let run := longestKURun ops
+    let tag := st.tag ++ (if run > maxUselessRecords then ",kurun" else if hasKU then ",ku" else "")
     match schedMonitor st.s.vers (implRes ++ implDrain) o with
     | some cl => .propFail tag cl
     | none =>
